@@ -277,6 +277,26 @@ pub const C05_KINDS: &[Kind] = &[
         hazard: Some(("*", "break_or_continue_in_closure_inside_loop")),
     },
     Kind {
+        name: "break in a pu closure defined inside a loop",
+        body: Body::Stmts(&["loop do", "    zcl :: pu -> int do", "        break", "        1", "    end", "    break", "end"]),
+        hazard: None,
+    },
+    Kind {
+        name: "continue in a pu closure defined inside a loop",
+        body: Body::Stmts(&["zn := 0", "loop zn < 2 do", "    zn += 1", "    zcl :: pu zq: int -> int do", "        if zq > 0 do", "            continue", "        end", "        zq", "    end", "end"]),
+        hazard: None,
+    },
+    Kind {
+        name: "break in a closure two levels below a loop",
+        body: Body::Stmts(&["loop do", "    zo :: fn do", "        zi :: fn do", "            break", "        end", "    end", "    break", "end"]),
+        hazard: None,
+    },
+    Kind {
+        name: "break in a blob method defined inside a loop",
+        body: Body::Stmts(&["loop do", "    zo :: Zbf { f: fn -> int do", "        break", "        1", "    end }", "    break", "end"]),
+        hazard: None,
+    },
+    Kind {
         name: "continue in a closure defined inside a loop",
         body: Body::Stmts(&["loop do", "    zcl :: fn do", "        if true do", "            continue", "        end", "    end", "    break", "end"]),
         hazard: Some(("*", "break_or_continue_in_closure_inside_loop")),
